@@ -119,7 +119,8 @@ pub(crate) mod verif_cmd {
 
     // ---------------------------------------------------------------- E-OS
     pub static mut TTY_OUT: bool = false;
-    pub fn isatty_model(s: Stream) -> bool { match s { Stream::Stdin => false, _ => unsafe { TTY_OUT } } }
+    pub static mut TTY_IN: bool = false;
+    pub fn isatty_model(s: Stream) -> bool { match s { Stream::Stdin => unsafe { TTY_IN }, _ => unsafe { TTY_OUT } } }
     pub static mut ASK_FAIL: bool = false;
     pub static mut ASKS: usize = 0;
     pub static mut FS_TOUCHED_AT_ASK: usize = 0;
@@ -444,12 +445,28 @@ pub(crate) mod verif_cmd {
             kani::assume(k <= 2);
             LIB_WRITES = k;
         }
-        // the input is always a file argument here: std::io::stdin() drags std's lazily-initialised global handle
-        // (mutex/futex internals) into the model; "stdin instead of a file" is outside this harness
-        let infile = Some(String::from("i"));
-        let outfile = Some(String::from("o"));
+        let infile = if unsafe { USE_STDIN } { None } else { Some(String::from("i")) };
+        let outfile = if unsafe { USE_STDOUT } { None } else { Some(String::from("o")) };
         (infile, outfile, if pre_exists { pre_len } else { 0 }, pre)
     }
+    /// wiring of the harness: data from stdin instead of a file argument / to stdout instead of -o (concrete per harness)
+    pub static mut USE_STDIN: bool = false;
+    pub static mut USE_STDOUT: bool = false;
+    /// C12 "results do not depend on how I/O is wired": what must hold when stdin / stdout take the place of the files
+    fn check_stdio(ok: bool, plen: usize, pre_exists: bool) {
+        unsafe {
+            if USE_STDOUT {
+                assert!(FS.creates == 0 && FS.writes == 0 && FS.exists == pre_exists && FS.len == plen, "[C12,C13] with stdout as destination no file is created or touched");
+                if LIB_CALLS == 1 { assert!(STDOUT_WRITES == LIB_WRITES, "[C12] everything the library writes reaches stdout"); }
+                if TTY_OUT { assert!(LIB_CALLS == 0 && !ok, "[C12] binary output is refused when stdout is a terminal"); }
+            }
+            if USE_STDIN && TTY_IN { assert!(LIB_CALLS == 0 && !ok, "[C12] reading from stdin is refused when stdin is a terminal (nothing was piped in)"); }
+            if !(USE_STDIN && TTY_IN) && !(USE_STDOUT && TTY_OUT) && !ASK_FAIL && (USE_STDIN || IN_EXISTS) && LIB_CALLS == 0 && PRECHECKS_PASS {
+                assert!(false, "[C12] with every pre-check passing the operation is carried out whichever way input and output are wired");
+            }
+        }
+    }
+    pub static mut PRECHECKS_PASS: bool = true; // set by the key-mode harnesses: keyring / key lookup / unlock all succeed
     /// what C12/C13 demand of every command, given what the recorders saw
     fn check_common(ok: bool, plen: usize, pre: [u8; 4], pre_exists: bool) {
         unsafe {
@@ -461,8 +478,8 @@ pub(crate) mod verif_cmd {
                 assert!(FS.creates == 0 && FS.writes == 0 && FS.exists == pre_exists && FS.len == plen, "[C13] a command that fails before the library call leaves the output path untouched");
             } else {
                 assert!(LIB_FS_TOUCHED_BEFORE == 0, "[C13] the output file is neither created nor written before the library call");
-                assert!(ok == !LIB_FAIL, "[C12] exit status = result of the library call: errors are never swallowed, success never manufactured");
-                if LIB_WRITES == 0 {
+                assert!(ok == !LIB_FAIL, "[C12,C10,C03,C04] exit status = result of the library call: no error kind (authentication, trailing data, chunk length, failed read / write / flush) is swallowed, success is never manufactured");
+                if LIB_WRITES == 0 || USE_STDOUT {
                     assert!(FS.creates == 0 && FS.exists == pre_exists && FS.len == plen, "[C13] if the library fails before its first write (bad header, wrong key, refused exchange) the output path is untouched");
                 } else {
                     assert!(FS.creates == 1 && FS.len == LIB_WRITES && FS.data[0] == 0x41 && (LIB_WRITES < 2 || FS.data[1] == 0x42), "[C13,C12] the output file holds exactly what the library wrote (the authenticated prefix), nothing else");
@@ -491,8 +508,17 @@ pub(crate) mod verif_cmd {
         if buf.is_empty() { Ok(()) } else { Err(std::io::Error::from(std::io::ErrorKind::UnexpectedEof)) }
     }
 
+    /// `std::io::stdout()` / `stdin()`: handles to the process streams. Both are one `&'static` to a lazily initialised
+    /// global (OnceLock/futex internals); every method reachable on them is stubbed above, so the reference is never followed.
+    pub fn stdout_handle_model() -> std::io::Stdout { unsafe { STDOUT_OPENS += 1; core::mem::transmute::<usize, std::io::Stdout>(0x1000) } }
+    pub fn stdin_handle_model() -> std::io::Stdin { unsafe { STDIN_OPENS += 1; core::mem::transmute::<usize, std::io::Stdin>(0x2000) } }
+    pub static mut STDOUT_OPENS: usize = 0;
+    pub static mut STDIN_OPENS: usize = 0;
+
     macro_rules! cmd_stubs { ($f:item) => {
         #[kani::proof]
+        #[kani::stub(std::io::stdout, stdout_handle_model)]
+        #[kani::stub(std::io::stdin, stdin_handle_model)]
         #[kani::stub(<std::io::Stdout as std::io::Write>::write, stdout_write_model)]
         #[kani::stub(<std::io::Stdout as std::io::Write>::write_all, stdout_write_all_model)]
         #[kani::stub(<std::io::Stdout as std::io::Write>::flush, stdout_flush_model)]
@@ -645,6 +671,63 @@ pub(crate) mod verif_cmd {
         kani::cover!(!ok && unsafe { LIB_CALLS == 1 && LIB_WRITES == 2 });
     } }
 
+    /// wiring is concrete per harness (a solver-chosen wiring doubled the instance and ran out of memory at 36 GB)
+    fn set_stdio(i: bool, o: bool) {
+        unsafe { USE_STDIN = i; USE_STDOUT = o; TTY_IN = kani::any(); PRECHECKS_PASS = true; }
+    }
+    fn pass_decrypt_wired() -> bool {
+        let (infile, outfile, plen, pre) = setup_common();
+        let pre_exists = unsafe { FS.exists };
+        let r = pass_decrypt(PasswordOptions { infile, outfile, env_pass: true });
+        let ok = r.is_ok();
+        core::mem::forget(r);
+        check_common(ok, plen, pre, pre_exists);
+        check_stdio(ok, plen, pre_exists);
+        ok
+    }
+    fn pass_encrypt_wired() -> bool {
+        let (infile, outfile, plen, pre) = setup_common();
+        let pre_exists = unsafe { FS.exists };
+        let r = pass_encrypt(PasswordOptions { infile, outfile, env_pass: true });
+        let ok = r.is_ok();
+        core::mem::forget(r);
+        check_common(ok, plen, pre, pre_exists);
+        check_stdio(ok, plen, pre_exists);
+        ok
+    }
+    cmd_stubs! {
+    /// C12 (wiring): `password decrypt` as a filter: stdin -> stdout.
+    pub fn cmd_pass_decrypt_stdio() {
+        set_stdio(true, true);
+        let ok = pass_decrypt_wired();
+        kani::cover!(ok && unsafe { LIB_WRITES == 2 });
+        kani::cover!(!ok && unsafe { TTY_OUT });
+        kani::cover!(!ok && unsafe { TTY_IN });
+    } }
+    cmd_stubs! {
+    /// C12 (wiring): `password decrypt FILE` to stdout.
+    pub fn cmd_pass_decrypt_to_stdout() {
+        set_stdio(false, true);
+        let ok = pass_decrypt_wired();
+        kani::cover!(ok && unsafe { LIB_WRITES == 2 });
+    } }
+    cmd_stubs! {
+    /// C12 (wiring): `password encrypt` as a filter: stdin -> stdout.
+    pub fn cmd_pass_encrypt_stdio() {
+        set_stdio(true, true);
+        let ok = pass_encrypt_wired();
+        kani::cover!(ok && unsafe { LIB_WRITES == 2 });
+        kani::cover!(!ok && unsafe { TTY_IN });
+    } }
+    cmd_stubs! {
+    /// C12 (wiring): `password encrypt -o FILE` from stdin.
+    pub fn cmd_pass_encrypt_from_stdin() {
+        set_stdio(true, false);
+        let ok = pass_encrypt_wired();
+        kani::cover!(ok && unsafe { LIB_WRITES == 2 });
+        kani::cover!(!ok && unsafe { TTY_IN });
+    } }
+
     // ================================================================= change-pass / extract-pub
     // a 112-character argument (the base64 length of 84 bytes) that is not one of the model's tokens
     pub const BLOB: &str = "BBBBBBBBBBBBBBBBBBBBBBBBBBBBBBBBBBBBBBBBBBBBBBBBBBBBBBBBBBBBBBBBBBBBBBBBBBBBBBBBBBBBBBBBBBBBBBBBBBBBBBBBBBBBBBBB";
@@ -678,14 +761,14 @@ pub(crate) mod verif_cmd {
     pub fn cmd_change_pass() {
         unsafe {
             ASK_FAIL = kani::any(); NEWPASS_FAIL = kani::any(); NEWPASS_SAME = kani::any(); UNLOCK_FAIL = kani::any(); TTY_OUT = kani::any();
-            ct_codecs::kani_model::ATT_LEN = 84; // the argument decodes to 84 bytes
-            ct_codecs::kani_model::ATT_ERR = kani::any();
+            ct_codecs::kani_model::M.att_len = 84; // the argument decodes to 84 bytes
+            ct_codecs::kani_model::M.att_err = kani::any();
         }
         let r = change_pass(String::from(BLOB), true);
         let ok = r.is_ok();
         core::mem::forget(r);
         unsafe {
-            let should = !ASK_FAIL && !NEWPASS_FAIL && !UNLOCK_FAIL && !ct_codecs::kani_model::ATT_ERR;
+            let should = !ASK_FAIL && !NEWPASS_FAIL && !UNLOCK_FAIL && !ct_codecs::kani_model::M.att_err;
             assert!(ok == should, "[C12,C16] change-pass succeeds iff both passwords were obtained, the key string is well formed and the old password unlocks it");
             if ok {
                 assert!(UNLOCK_N == 1 && UNLOCK_BLOB0 == b'B' && UNLOCK_PW0 == b'p', "[C16,C07] the given locked key is unlocked with the OLD password");
@@ -705,14 +788,14 @@ pub(crate) mod verif_cmd {
     pub fn cmd_extract_pub() {
         unsafe {
             ASK_FAIL = kani::any(); UNLOCK_FAIL = kani::any();
-            ct_codecs::kani_model::ATT_LEN = 84;
-            ct_codecs::kani_model::ATT_ERR = kani::any();
+            ct_codecs::kani_model::M.att_len = 84;
+            ct_codecs::kani_model::M.att_err = kani::any();
         }
         let r = extract_pub(String::from(BLOB), true);
         let ok = r.is_ok();
         core::mem::forget(r);
         unsafe {
-            let should = !ASK_FAIL && !UNLOCK_FAIL && !ct_codecs::kani_model::ATT_ERR;
+            let should = !ASK_FAIL && !UNLOCK_FAIL && !ct_codecs::kani_model::M.att_err;
             assert!(ok == should, "[C12,C16] extract-pub succeeds iff the password was obtained, the key string is well formed and unlocks");
             if ok {
                 assert!(UNLOCK_N == 1 && UNLOCK_BLOB0 == b'B' && UNLOCK_PW0 == b'p', "[C16] the given locked key is unlocked with the given password");
